@@ -101,6 +101,10 @@ func (s *Site) Events() []Event {
 		ev = append(ev, Event{Cat: "REF", Fn: s.Fn})
 	case "mcall":
 		ev = append(ev, Event{Cat: "MCALL", Fn: s.Fn})
+	case "mcall.chain":
+		// x.M1().M2(): two references that begin at the same position
+		ev = append(ev, Event{Cat: "MCALL", Fn: s.Fn})
+		ev = append(ev, Event{Cat: "MCALL", Fn: s.Fn2})
 	case "mvalue":
 		ev = append(ev, Event{Cat: "MREF", Fn: s.Fn})
 	case "mexpr":
